@@ -95,6 +95,7 @@ pub struct Sim {
     /// monitor-only: the application never calls campaign() on a node that is not a voter of
     /// its own configuration
     pub voter_campaign_only: bool,
+    pub pt: crate::ptrace::PTrace,
 }
 
 fn logger() -> slog::Logger {
@@ -129,7 +130,7 @@ pub fn call_kind(c: &Call) -> &'static str {
 
 impl Sim {
     pub fn new(seed: u64, rec: Recorder) -> Sim {
-        Sim { nodes: vec![], net: vec![], rng: Rng::new(seed), rec, next_payload: 1, max_log: 12, trace: vec![], keep_trace: false, trace_tail: 60, run_id: seed, trace_len: 0, mon: None, halted: false, quiet: false, extra_steps: false, force_prevote_cq: false, force_sim_snap: false, voter_campaign_only: false }
+        Sim { nodes: vec![], net: vec![], rng: Rng::new(seed), rec, next_payload: 1, max_log: 12, trace: vec![], keep_trace: false, trace_tail: 60, run_id: seed, trace_len: 0, mon: None, halted: false, quiet: false, extra_steps: false, force_prevote_cq: false, force_sim_snap: false, voter_campaign_only: false, pt: Default::default() }
     }
 
     /// Random cluster shape and per-node configuration.
@@ -181,6 +182,8 @@ impl Sim {
         for i in 0..self.nodes.len() {
             self.start(i);
         }
+        self.pt.inc = voters.clone();
+        self.pt.enabled = true;
         self.with_mon(|m, s| m.on_boot(s));
     }
 
@@ -214,8 +217,11 @@ impl Sim {
         let _ = raft::verif_raft::take_draws();
         match r {
             Ok(Ok(node)) => {
+                let (t, v) = (node.raft.term, node.raft.vote);
                 n.driver = Some(Driver { node, last_rd: None });
                 n.reported = n.applied;
+                let id = n.id;
+                self.pt.restart(id, t, v);
                 n.async_pending.clear();
                 n.to_apply.clear();
                 let id = n.id;
@@ -252,7 +258,29 @@ impl Sim {
         };
         let d = self.nodes[i].driver.as_mut()?;
         let role = d.node.raft.state;
+        let ppre = (d.node.raft.term, d.node.raft.vote, d.node.raft.state);
         let o = d.exec(&c);
+        let ppost = (d.node.raft.term, d.node.raft.vote, d.node.raft.state);
+        let gfrom = match &c {
+            Call::Step(m) if m.get_msg_type() == MessageType::MsgRequestVoteResponse && !m.reject && m.term == ppre.0 => Some(m.from),
+            _ => None,
+        };
+        let nid = self.nodes[i].id;
+        if o.panicked.is_none() {
+            self.pt.call(nid, ppre, ppost, gfrom);
+            if let Call::ApplyConfChange(_) = &c {
+                if o.conf_state.is_some() {
+                    self.pt.enabled = false;
+                }
+            }
+            if let (Call::Ready, Some(rv)) = (&c, o.ready.as_ref()) {
+                if rv.hs.is_some() {
+                    self.pt.ready_hs(nid);
+                }
+            }
+        } else {
+            self.pt.crash(nid);
+        }
         let meta = format!("{} {:?} {} run={} ev={}", call_kind(&c), role,
             if let Call::Step(m) = &c { format!("{:?}", m.get_msg_type()) } else { "-".to_string() },
             self.run_id, self.trace_len);
@@ -291,6 +319,7 @@ impl Sim {
             }
         }
         for m in msgs {
+            self.pt.send(&m);
             if self.net.len() < 400 {
                 self.net.push(m);
             }
@@ -367,6 +396,7 @@ impl Sim {
             hs.term = t;
             hs.vote = v;
             hs.commit = c;
+            self.pt.fsync(n.id, t, v);
         }
         drop(st);
         if self.mon.is_some() {
@@ -607,6 +637,8 @@ impl Sim {
                 // crash (volatile state lost; everything written to the store is durable)
                 if self.nodes[i].driver.is_some() && self.nodes.iter().filter(|n| n.driver.is_some()).count() > 1 {
                     self.nodes[i].driver = None;
+                    let nid = self.nodes[i].id;
+                    self.pt.crash(nid);
                     self.nodes[i].async_pending.clear();
                     self.nodes[i].to_apply.clear();
                     let id = self.nodes[i].id;
